@@ -22,6 +22,16 @@ func newBody() *Body {
 }
 
 func (b *Body) appendItem(c nodeContent) *node {
+    // a new item has to start on its own line: terminate an unterminated last line first
+    if toks := b.children.BuildTokens(nil); len(toks) > 0 {
+        last := toks[len(toks)-1]
+        lastBytes := last.Bytes
+        endsLine := last.Type == hclsyntax.TokenNewline ||
+            (last.Type == hclsyntax.TokenComment && len(lastBytes) > 0 && lastBytes[len(lastBytes)-1] == '\n')
+        if !endsLine {
+            b.AppendNewline()
+        }
+    }
     nn := b.children.Append(c)
     b.items.Add(nn)
     return nn
